@@ -508,7 +508,7 @@ def check_modal_repetition(ctx, db):
                 continue  # XGEOMETRY: the record is skipped, no element is created, the modal repetition is still updated
         if nxt is None or not (nxt.k == 'CXXMemberCallExpr' and (nxt.callee or '').endswith('::copy_from') and norm(nxt.args[0].text()) in ('modal_repetition', 'Repetition{modal_repetition}')):
             bad.append('%s: the element does not copy the modal repetition' % c.loc())
-    ctx.check(len(calls) >= 10 and not bad, 'R-CLONE', 'read_oas/repetition-through-modal', f.loc(), 'all %d repetition fields are read into the modal repetition, which the element then copies' % len(calls), '; '.join(bad[:3]))
+    ctx.check(len(calls) >= 9 and not bad, 'R-CLONE', 'read_oas/repetition-through-modal', f.loc(), 'all %d repetition fields are read into the modal repetition, which the element then copies' % len(calls), '; '.join(bad[:3]))
 
 
 def run(ctx):
